@@ -56,6 +56,39 @@ def build_harness():
     rc, out = C.sh(["go", "build", "-tags", "verif,c20nohook", "-overlay", ovp, "-o", binp, "./c20"], cwd=hdir, env=C.GOENV, timeout=1800)
     return rc == 0, log + "\n--- fallback without the dagaz hook ---\n" + out, binp, False
 
+def float_phase(tier, wd):
+    """-> dict(records, bad, first, error)"""
+    res = {"records": 0, "bad": 0, "first": "", "error": ""}
+    fdir = os.path.join(C.VERIF, "oracle", "c20f")
+    ora = os.path.join(C.WORK, "c20foracle" + C.RTAG)
+    with C.Lock("build"):
+        srcs = [os.path.join(C.COQ, "GridFloat.v"), os.path.join(fdir, "driver.ml"), os.path.join(fdir, "ExtractGridFloat.v"), os.path.join(fdir, "build.sh")]
+        if not os.path.exists(os.path.join(C.COQ, "GridFloat.vo")):
+            res["error"] = "coq/GridFloat.v does not compile"; return res
+        if not os.path.exists(ora) or os.path.getmtime(ora) < max(os.path.getmtime(p) for p in srcs):
+            rc, out = C.sh(["sh", os.path.join(fdir, "build.sh"), C.COQ], timeout=900)
+            if rc != 0 or not os.path.exists(os.path.join(fdir, "oracle")):
+                res["error"] = "INTERNAL oracle/c20f does not build: " + out[-800:]; return res
+            shutil.copy2(os.path.join(fdir, "oracle"), ora)
+        ok, log, hbin = C.build_harness("c20f")
+    if not ok:
+        res["error"] = "harness/c20f no longer fits the exported API of modules/dagaz (NewVector3f, Dot, Cross, ToProtobuf): " + log[-400:]; return res
+    lp = os.path.join(wd, "float.lines")
+    rc, out = C.sh("%s %d %d > %s" % (hbin, C.seed() * 13 + 20, 4000 if tier == "quick" else 60000, lp), timeout=600)
+    if rc != 0:
+        res["error"] = "harness/c20f failed: " + out[-400:]; return res
+    rc, out = C.sh([ora, lp], timeout=1200)
+    m = re.search(r"^OK (\d+)", out, flags=re.M)
+    bad = [l for l in out.splitlines() if l.startswith("BAD")]
+    res["records"] = (int(m.group(1)) if m else 0) + len(bad)
+    res["bad"] = len(bad)
+    res["first"] = bad[0][:300] if bad else ""
+    if rc not in (0, 1) or (not m and not bad):
+        res["error"] = "INTERNAL oracle/c20f failed: " + out[-400:]
+    try: os.remove(lp)
+    except OSError: pass
+    return res
+
 def regen_gen():
     """GenGrid.v for the tree under test (coq_make's rsync may have overwritten it in a scratch build dir)"""
     rs = os.path.join(C.VERIF, "tools", "gridconsts", "run.sh")
@@ -328,6 +361,18 @@ def run(tier, replay_path=None):
         if steps and ill > 0.05 * steps:
             tie_broken.append("correspondence: %d of %d insertion steps are ill-conditioned (more than 5%%): the float32 code no longer follows the exact model closely" % (ill, steps))
 
+    # 2b. float32 primitives, bit for bit: the real Vector3f.Dot / Cross against the Flocq binary32 model
+    #     (coq/GridFloat.v dot32 / cross32, extracted: oracle/c20f), the model the error-bound theorems are about
+    fl = float_phase(tier, wd)
+    totals.update({"float32_bit_exact_records": fl["records"], "float32_bit_mismatches": fl["bad"]})
+    if fl["error"].startswith("INTERNAL"):
+        print(fl["error"]); return 2
+    if fl["error"]:
+        tie_broken.append("float32 primitives: " + fl["error"])
+    elif fl["bad"]:
+        tie_broken.append("float32 primitives: Vector3f.Dot / Cross differ bit-wise from coq/GridFloat.v dot32 / cross32 on %d of %d inputs; first: %s"
+                          % (fl["bad"], fl["records"], fl["first"]))
+
     if first_mm is not None:
         tie_broken.append("correspondence model/implementation fails: " + "; ".join(m["what"] for m in first_mm[1]["mm"][:2]))
 
@@ -365,6 +410,7 @@ def run(tier, replay_path=None):
             "harness/c20 (generator, dump of the exported fields of dagaz.RegularGrid, pointer -> insertion index by first appearance) and the add-only hook hooks/modules__dagaz__grid_verif.go (re-exports doHorizontalPlanesOverlap, calculateNormal)",
             "modelled, not verified: float32 arithmetic of modules/dagaz (the model is exact over Q; each step is compared from the implementation's own previous state, coordinates to 1e-4, decisions closer than 2^-10 to a boundary are counted as ill-conditioned and not compared); Min/Max modelled as integers; (uint) conversion of negative floats; the unbounded merge loop is cut at merge_fuel iterations (theorems hold for every fuel)",
             "theorem domain: horizontal quads with positive extents inside the 64 m box; P_C20 on implementation states uses a tolerance of 2^-13 m on cell overlap and bounds",
+            "float32 primitives (Properties/C20float.v): coq/GridFloat.v models Vector3f.Dot / Cross / Add / Sub / Mul bit for bit over Flocq's binary32 (round to nearest even, no fused multiply-add); the error-bound theorems are about real numbers and depend on the axioms the Coq standard library declares for Reals and that Flocq uses: ClassicalDedekindReals.sig_forall_dec, ClassicalDedekindReals.sig_not_dec, Classical_Prop.classic, FunctionalExtensionality.functional_extensionality_dep (none declared by this development); oracle/c20f (ExtrOcamlBasic extraction of GridFloat.v + driver.ml) compares bit patterns produced by the real code (harness/c20f) with dot32 / cross32, all NaNs identified",
         ],
         "theorems": pinfo["theorems"], "examples": pinfo.get("examples", []),
         "traces_validated_against_impl": totals.get("histories", 0),
